@@ -168,6 +168,7 @@
 import JdProofs.PatchParseBack
 import JdProofs.PatchNeverMorePermissive
 import JdProofs.PatchOwnOutput
+import JdProps.C09Text
 
 set_option autoImplicit false
 
